@@ -29,7 +29,7 @@ for p in props:
         na.append({"property_id": p, "reason": reason})
 m = {
     "version": 1,
-    "setup_cmd": "cd /verif/harness && CARGO_NET_OFFLINE=true RUSTFLAGS=-Awarnings cargo build --offline --profile verif --workspace --quiet",
+    "setup_cmd": "cd /verif && ./tools/setup.sh",
     "hooks": {
         "guard": "cargo feature `echo_verif` on crate warp-core",
         "enable": "the harness workspace (/verif/harness) depends on /repo/crates/warp-core by path with features echo_verif,native_rule_bootstrap,trusted_runtime,host_test; ./check rebuilds it from /repo's working tree",
